@@ -64,6 +64,12 @@ theorem wrapper_elem (t : QName) (a : AttrList) : Wrapper [.start t a] [.end_ t]
   have := balance_bal st (bal_elem t a hX) rest
   simpa using this
 
+theorem wrapper_elem_kids (t : QName) (a : AttrList) {kids : Stream} (hk : Bal kids) :
+    Wrapper (.start t a :: kids) [.end_ t] := by
+  intro X st rest hX
+  have := balance_bal st (bal_elem t a (hk.append hX)) rest
+  simpa using this
+
 theorem evsOf_map_ev (s : Stream) : evsOf (s.map .ev) = s := by
   induction s with
   | nil => rfl
